@@ -1115,6 +1115,16 @@ class Exec:
         raise OutsideSubset('list comprehension')
 
     # ---------------------------------------------------------------- calls
+    def allany_ext(self, is_all, gen, st):
+        """all(...) / any(...) over a generator expression that is not evaluated element-wise: an unknown boolean
+        (over-approximation: both outcomes are explored; the element expressions are tests without effect)"""
+        if isinstance(gen, Opaque) and gen.name == 'genexp':
+            return [(st, SBool(fresh('all' if is_all else 'any', z3.BoolSort())))]
+        if isinstance(gen, tuple):
+            parts = [self.truth(x, st) for x in gen]
+            return [(st, self.wrapb(self.conj(parts) if is_all else self.disj(parts)))]
+        return NotImplemented
+
     def call(self, f, args, kw, st, node=None):
         """returns list of (state, value)"""
         from . import models
